@@ -82,16 +82,8 @@ def r15a(ctx):
             ctx.check(bool(edges) and g, 'R15a', fn, '%s limit before %s' % (nm, site_nm), a.loc(site),
                       'the %s is reached only through the not-exceeding edge of the %s check (with this chunk\'s delta) or through cut_new_xorb' % (site_nm, nm),
                       'a chunk can be added to the pending xorb without the %s limit having been checked with the delta that is applied: a xorb can exceed the limit' % nm)
-    # the exceeding edges lead to the cut (they cannot bypass it)
-    exb = edges_where(a, lambda op, l, r: op in ('Gt', 'Ge') and l[0] == 'bin' and flow.show(l[2]) == 'self.new_data_size' and is_limit(r, 'MAX_XORB_BYTES'))
-    exc = edges_where(a, lambda op, l, r: op in ('Gt', 'Ge') and l[0] == 'bin' and l[2][0] == 'call' and sg(l[2][1]).endswith('Vec::len') and is_limit(r, 'MAX_XORB_CHUNKS'))
-    head, blks = lp
-    latches = [(x, head) for x in blks if head in a.cfg.succ[x]]
-    for nm, ex in (('bytes', exb), ('chunks', exc)):
-        for (x, y) in ex:
-            r = a.cfg.reach([y], cut_edges=set(cut_out) | set(latches))
-            ctx.check(P not in r, 'R15a', fn, '%s exceed -> cut' % nm, a.loc(x), 'from the exceeding edge of the %s check the push is reachable only through cut_new_xorb' % nm,
-                      'the exceeding edge of the %s check can reach the push without cutting the xorb' % nm)
+    # (that an exceeding edge cannot bypass the cut is implied by the two guard obligations above: a path that takes the
+    # exceeding edge of a check never crosses that check's not-exceeding edge, so it must cross a cut)
     # the cut xorb is registered (uploaded); covered by C16-R16c for error propagation
     for (aa, cs) in [(a, cuts)] + [(ah, hc) for (_, ah, hc) in helper_cuts]:
         for c in cs:
